@@ -206,8 +206,8 @@ func (st *c13State) interferer(p *Parked) {
 	w, h := st.w, st.h
 	bans := len(h.N.Model.Bans)
 	off := h.N.Model.Offset
-	menu := w.C.Weighted("menu", 3, 2, 3, 2, 2, 1, 1)
-	w.Probe("c13.pair." + p.Site + "." + []string{"ban", "authorize", "report", "rotate", "stats-falseneg", "server-post", "sync"}[menu])
+	menu := w.C.Weighted("menu", 3, 2, 3, 2, 2, 1, 1, 1)
+	w.Probe("c13.pair." + p.Site + "." + []string{"ban", "authorize", "report", "rotate", "stats-falseneg", "server-post", "sync", "register"}[menu])
 	switch menu {
 	case 0: // ban: a conflicting authorization for a live device
 		live := h.live()
@@ -240,6 +240,8 @@ func (st *c13State) interferer(p *Parked) {
 		st.opServerPost()
 	case 6:
 		st.opSync()
+	case 7:
+		st.opRegister()
 	}
 	if len(h.N.Model.Bans) > bans {
 		w.Probe("c13.ban-in-gap")
@@ -266,6 +268,35 @@ func (st *c13State) opAuthorize(a glow.EquipmentAuthorization) {
 	}
 	body, _ := json.Marshal(a)
 	st.run(op, func() *Task { return n.RequestAsync("auth", "POST", "/api/v1/authorize-equipment", body, res) })
+}
+
+// opRegister posts a registration (valid for one of two candidate keys, or
+// signed by the wrong key); after the first success every further one must be
+// refused.
+func (st *c13State) opRegister() {
+	n := st.h.N
+	c := st.w.C
+	cand := []*KeyPair{st.h.GCA, st.h.GCA, st.h.GCA, Key("gcaB")}[c.Int("cand", 4)]
+	signer := n.Temp
+	if c.Chance("wrong-signer", 1, 4) {
+		signer = cand
+	}
+	reg := server.GCARegistration{GCAKey: cand.Pub}
+	reg.Signature = glow.Sign(RegistrationSigningBytes(cand.Pub), signer.Priv)
+	res := &HTTPResult{}
+	var want bool
+	op := &c13Op{kind: "register"}
+	op.apply = func() { want = n.Model.Register(reg.GCAKey, reg.Signature) }
+	op.verify = func() {
+		if res.Panic != nil {
+			st.w.Fail("C13.panic", "register-gca", "handler panicked: %v\n%s", res.Panic, firstRepoFrames(res.Stack))
+		}
+		if (res.Status == 200) != want {
+			st.w.Fail("C13.linear", "register", "registration of %s signed by %s: status %d, sequential rules in critical-section order say success=%v", cand.Role, signer.Role, res.Status, want)
+		}
+	}
+	body, _ := json.Marshal(reg)
+	st.run(op, func() *Task { return n.RequestAsync("register", "POST", "/api/v1/register-gca", body, res) })
 }
 
 func (st *c13State) opReport() {
@@ -525,7 +556,12 @@ func runC13(m *Sim) {
 	st := &c13State{w: w, h: h, fetchedAt: map[string]uint32{}}
 	SetSlot(uint32(500 + m.C.Int("now0", 2500)))
 	h.Boot()
-	h.Setup(2 + m.C.Int("devices", 2))
+	lateRegistration := m.C.Chance("late-registration", 1, 4)
+	if !lateRegistration {
+		h.Setup(2 + m.C.Int("devices", 2))
+	} else {
+		m.Probe("c13.late-registration")
+	}
 	n := h.N
 	// Every mutex must be free at every quiescent point.
 	m.QuiesceCheck = func() {
@@ -554,7 +590,13 @@ func runC13(m *Sim) {
 	nops := 10 + m.C.Int("ops", 30)
 	for i := 0; i < nops; i++ {
 		w.Phase = fmt.Sprintf("op%d", i)
-		switch m.C.Weighted("op", 6, 2, 2, 3, 2, 1, 2, 3, 1) {
+		if lateRegistration && i == 2+m.C.Int("register-at", 6) && !n.Model.Registered {
+			// The GCA registers while traffic is already arriving.
+			st.opRegister()
+		}
+		switch m.C.Weighted("op", 6, 2, 2, 3, 2, 1, 2, 3, 1, 1) {
+		case 9:
+			st.opRegister()
 		case 0:
 			st.opReport()
 		case 1:
